@@ -248,6 +248,47 @@ def gen_fi_case(rng, name):
             "pyseed": rng.randint(0, 1000)}
 
 
+def gen_risk_case(rng, name):
+    """risk tracking and hedging: UpdateRisk over a (nested) tree, a one-instrument hedge of one measure,
+    then UpdateRisk again; unit-risk frames carry their own index (no synthetic row), missing columns count as zero"""
+    n = rng.randint(6, 14)
+    dates = gen_dates(rng, n)
+    nt = rng.randint(3, 5)
+    tickers = list(range(1, nt + 1))
+    prices = [[t, gen_price_col(rng, n, p_nan=0.0)] for t in tickers]
+    hedge = tickers[-1]
+    m = 1
+    cols = [[t, [hx(dy(rng, -2, 3, 8) if rng.random() < 0.5 else dy(rng, 1, 3, 8)) for _ in range(n)]]
+            for t in tickers if t == hedge or rng.random() < 0.8]
+    cols = [[t, [hx(max(0.125, abs(float.fromhex(x)))) if t == hedge else x for x in col]] for t, col in cols]
+    adata = [[0, ["risk", [[m, list(dates), cols]]]]]
+    body = rng.sample(tickers[:-1], rng.randint(1, nt - 1))
+    ws = [[t, hx(rng.choice([0.125, 0.25, 0.375]))] for t in body]
+    sched = rng.choice([["runperiod", "daily", True, False, False], ["runperiod", "weekly", True, False, True], ["runonce"]])
+    mults = {t: rng.choice([1.0, 1.0, 2.0, 0.5, 3.0]) for t in tickers}
+    kids = [["sec", t, "sec", False, hx(mults[t]), rng.random() < 0.4] for t in tickers]
+    hist = rng.choice([0, 0, 1])
+    stack = [sched, ["weighspecified", ws], ["rebalance"], ["updaterisk", m, hist], ["selectthese", [hedge], False, False],
+             ["hedgerisk1", m], ["updaterisk", m, hist]]
+    if rng.random() < 0.3:
+        # nested: the body lives in a sub-strategy, the parent tracks risk over the whole tree
+        sub = ["strat", 30, False, [k for k in kids if k[1] in body],
+               [["runperiod", "daily", True, False, False], ["weighspecified", ws], ["rebalance"]]]
+        tree = ["strat", 40, False, [sub, [k for k in kids if k[1] == hedge][0]],
+                [sched, ["weighspecified", [[30, hx(0.5)]]], ["rebalance"], ["updaterisk", m, hist],
+                 ["selectthese", [hedge], False, False], ["hedgerisk1", m], ["updaterisk", m, hist]]]
+    else:
+        tree = ["strat", 40, False, kids, stack]
+    return {"name": name, "dates": dates, "intpos": rng.random() < 0.3, "comm": rng.choice([["none"], ["prop", hx(0.001953125)]]),
+            "prices": prices, "bidoffer": None, "coupons": None, "cost_long": None, "cost_short": None, "adata": adata,
+            "capital": hx(100000.0), "tree": tree, "pyseed": 0}
+
+
+def gen_risk_cases(seed, n, prefix="q"):
+    rng = random.Random(seed * 19 + 5)
+    return [gen_risk_case(rng, "%s%05d" % (prefix, i)) for i in range(n)]
+
+
 def gen_case(rng, name):
     if rng.random() < 0.2:
         return gen_fi_case(rng, name)
